@@ -56,7 +56,7 @@ class Cycle:
     """One pipestance directory driven through one or more mrp incarnations."""
 
     def __init__(self, root, workdir, prog, sem, name, vdr="disable", delay_ms=20, faults=None, extra_args=(),
-                 cores=4, mem=4, delays=None, vmap=None):
+                 cores=4, mem=4, delays=None, vmap=None, rlimit_as_mb=0):
         self.root, self.wd, self.name = root, workdir, name
         os.makedirs(workdir, exist_ok=True)
         self.psid = "ps"
@@ -70,6 +70,7 @@ class Cycle:
         self.vdr = vdr
         self.extra = list(extra_args)
         self.cores, self.mem = cores, mem
+        self.rlimit_as_mb = rlimit_as_mb    # `ulimit -v` for mrp and its jobs (an address space limit that is no whole number of GB)
         self.log = []
 
     def mark(self, ev, **kw):
@@ -95,8 +96,15 @@ class Cycle:
                "--localmem=%d" % self.mem, "--vdrmode=" + self.vdr] + self.extra
         t0 = time.time()
         out = open(os.path.join(self.wd, "mrp.out"), "a")
+        pre = None
+        if self.rlimit_as_mb:
+            import resource
+            lim = self.rlimit_as_mb << 20
+
+            def pre():
+                resource.setrlimit(resource.RLIMIT_AS, (lim, lim))
         p = subprocess.Popen(cmd, cwd=self.wd, env=env, stdout=out, stderr=subprocess.STDOUT,
-                             start_new_session=True)
+                             start_new_session=True, preexec_fn=pre)
         try:
             rc = p.wait(timeout=timeout)
         except subprocess.TimeoutExpired:
@@ -143,4 +151,6 @@ class Cycle:
             pass
 
     def cleanup(self):
+        if os.environ.get("VERIF_KEEP"):
+            return
         shutil.rmtree(self.wd, ignore_errors=True)
